@@ -15,7 +15,7 @@
        extracted code, two carriers).  After every event each grid is tabulated (a closure that looks up an
        array) -- the model's grids are functions and would otherwise be re-evaluated through the whole history.
    META <fix1> <fix2> ev ev ...      (one peer / one reader)
-       ev:  d,it,pay | v,c | w,S | wa,S | wb | u,S,newname | s | o | r | q
+       ev:  d,it,pay | v,c | sv,0/1 | w,S | wb | wa,S | u,S,newname | s | o | r | q
             q prints  M ok=<trace ok so far> name,sync,has,pos,S cont=it:pay;..  D=it:pay;..   or  M ok=.. none D=.. *)
 open Model
 open X_fops
@@ -109,6 +109,7 @@ let meta (w : string array) =
     | [ "w"; s ] -> step (PWState (z_of_int (int_of_string s)))
     | [ "wa"; s ] -> step (PWStateA (z_of_int (int_of_string s)))
     | [ "wb" ] -> step PWStateB
+    | [ "sv"; b ] -> step (PSVis (b = "1"))
     | [ "u"; s; nn ] -> step (PSetup (z_of_int (int_of_string s), nn = "1"))
     | [ "s" ] -> step RShare
     | [ "o" ] -> step RWState
@@ -122,6 +123,47 @@ let meta (w : string array) =
                         (if m.m_sync then 1 else 0) (if m.m_has then 1 else 0) (int_of_z m.m_pos) (int_of_z m.m_S)
                         (hills m.m_cont)) in
       out := Printf.sprintf "M ok=%d %s D=%s vis=%s" (if !ok then 1 else 0) ms (hills wr.w_D) (hills (visible wr)) :: !out
+    | _ -> out := ("? " ^ w.(k)) :: !out
+  done;
+  print_endline (String.concat " | " (List.rev !out))
+
+(* SYS <n> ev ev ...   the n-walker system of SharedModel.sys_step
+     ev:  d,i,it,pay | v,i,c | sv,i,0/1 | w,i,S | wb,i | wa,i,S | u,i,S,newname | s,i | r,i | q,i
+     q,i prints, for every peer p of walker i:  M ok=<sys_ok so far> name,sync,has,pos,S cont=..  (or none), peers separated by " ; " *)
+let sysm (w : string array) =
+  let n = int_of_string w.(1) in
+  let st = ref (sys_init (nat_of_int n)) in
+  let evs = ref [] in
+  let out = ref [] in
+  let zi s = z_of_int (int_of_string s) and ni s = nat_of_int (int_of_string s) in
+  let step e = evs := e :: !evs; st := sys_step !st e in
+  for k = 2 to Array.length w - 1 do
+    match split ',' w.(k) with
+    | [ "d"; i; it; pay ] -> step (SDeposit (ni i, { hit = zi it; hpay = zi pay }))
+    | [ "v"; i; c ] -> step (SVis (ni i, zi c))
+    | [ "sv"; i; b ] -> step (SSVis (ni i, b = "1"))
+    | [ "w"; i; s ] -> step (SWState (ni i, zi s))
+    | [ "wb"; i ] -> step (SWStateB (ni i))
+    | [ "wa"; i; s ] -> step (SWStateA (ni i, zi s))
+    | [ "u"; i; s; nn ] -> step (SSetup (ni i, zi s, nn = "1"))
+    | [ "s"; i ] -> step (SShare (ni i))
+    | [ "r"; i ] -> step (SRestart (ni i))
+    | [ "q"; i ] ->
+      let ok = sys_ok (nat_of_int n) (List.rev !evs) in
+      let ii = int_of_string i in
+      let parts = List.filter_map (fun p ->
+          if p = ii then None else begin
+            let (wr, om) = pair_of !st (nat_of_int ii) (nat_of_int p) in
+            Some (Printf.sprintf "P %d ok=%d %s D=%s" p (if ok then 1 else 0)
+                    (match om with
+                     | None -> "none"
+                     | Some m -> Printf.sprintf "%s,%d,%d,%d,%d cont=%s"
+                                   (match m.m_name with None -> "-" | Some z -> string_of_int (int_of_z z))
+                                   (if m.m_sync then 1 else 0) (if m.m_has then 1 else 0) (int_of_z m.m_pos) (int_of_z m.m_S)
+                                   (hills m.m_cont))
+                    (hills wr.w_D))
+          end) (List.init n (fun p -> p)) in
+      out := String.concat " ; " parts :: !out
     | _ -> out := ("? " ^ w.(k)) :: !out
   done;
   print_endline (String.concat " | " (List.rev !out))
@@ -144,6 +186,27 @@ let opes (w : string array) =
   let ws = opes_run rounds (nat_of_int n) in
   Printf.printf "O %s\n" (String.concat ";" (List.map (fun l -> if l = [] then "-" else String.concat "," l) ws))
 
+(* OPESSUM <s0> <s20> <counter0> <kbt> h,h,..;h,h,..  (one list of kernel weights per round, rank order)
+   -> after every round: sum of weights, sum of squared weights, counter, neff, rct *)
+let opessum (w : string array) =
+  let s0 = fl w.(1) and s20 = fl w.(2) and c0 = float_of_string w.(3) and kbt = fl w.(4) in
+  let rounds = if Array.length w > 5 then List.map (fun r -> List.map fl (split ',' r)) (split ';' w.(5)) else [] in
+  let out = ref [] in
+  let rec go done_ rest =
+    match rest with
+    | [] -> ()
+    | r :: tl ->
+      let d = done_ @ [ r ] in
+      let sw = opes_sums fgrp s0 d in
+      let sw2 = opes_sums fgrp s20 (List.map (List.map (fun h -> h *. h)) d) in
+      let cnt = c0 +. float_of_int (List.fold_left (fun a x -> a + List.length x) 0 d) in
+      let neff = (1.0 +. sw) *. (1.0 +. sw) /. (1.0 +. sw2) in
+      let rct = kbt *. log (sw /. cnt) in
+      out := Printf.sprintf "%s,%s,%d,%s,%s" (hex sw) (hex sw2) (int_of_float cnt) (hex neff) (hex rct) :: !out;
+      go d tl in
+  go [] rounds;
+  print_endline ("S " ^ String.concat ";" (List.rev !out))
+
 let () =
   try
     while true do
@@ -153,8 +216,10 @@ let () =
         (match w.(0) with
          | "ABF" -> abf w
          | "META" -> meta w
+         | "SYS" -> sysm w
          | "CZAR" -> czar w
          | "OPES" -> opes w
+         | "OPESSUM" -> opessum w
          | _ -> print_endline "?")
     done
   with End_of_file -> ()
